@@ -8,7 +8,7 @@ CONSTANTS
   Vals = {1}
   Acts = {"CreateGroup", "CreateObject", "AddData", "AddToGroup", "SetFlag", "RemoveViaWorkspace", "RemoveViaParent", "RemovePG", "Close", "Open", "Copy", "DropRef", "Collect", "Purge", "LookupDead", "RemoveFromGroup", "Move"}
   Deviations = {"CloseKeepsOrphans"}
-  MaxDepth = 7
+  MaxDepth = 6
 CONSTRAINT DepthBound
 VIEW vw
 INVARIANT TypeOK
